@@ -75,6 +75,7 @@ fn main() {
         "stalechain" => crashdrv::stalechain_main(rest),
         "uringfault" => crashdrv::uringfault_main(rest),
         "apisurface" => apidrv::main(rest),
+        "hotkey" => apidrv::hotkey(rest),
         "damage" => damagedrv::main(rest),
         "clocksat" => seqdrv::clocksat(rest),
         "faultstory" => seqdrv::faultstory(rest),
